@@ -231,6 +231,13 @@ def c20_texts(rng, tier):
                 pad = target - n
                 lines.append(b'#' + b'.' * max(pad - 2, 0) + b'\n' if pad >= 2 else b' ' * pad)
                 out.append(b''.join(lines) + probe + b'\ntail = 1;\n')
+    # single tokens that fill the scanner buffer exactly (string body, run of blanks, comment, name)
+    for n in ([16380, 16381, 16382, 16383, 16384, 16385, 16386, 32766, 32767, 32768] if tier == 'thorough' else [16382, 16383, 16384, 32767]):
+        out.append(b'a = 1;\ns = "' + b'q' * n + b'";\nb = 2;\n')
+        out.append(b'a = 1;\n' + b' ' * n + b'b = 2;\n')
+    for n in (16383, 16384):
+        out.append(b'a = 1; /*' + b'c' * n + b'*/ b = 2;\n')
+        out.append(b'n' * n + b' = 1;\n')
     return out
 
 def sess_c20(texts, groups):
